@@ -1184,3 +1184,36 @@ def rule_zero_invariance(ctx, rep, langs=ALL_LANGS):
             else:
                 rep.ok(R, ent, 'same decision and instruction with 0, 1, 3 and 6 leading zeros')
     rep.floor(R, n, 900, 'zero-invariance evaluations')
+
+
+# ---------------------------------------------------------------------------------------
+def rule_arm_atomic(ctx, rep, langs=ALL_LANGS):
+    R = 'A8-ARM-ATOMIC'
+    rep.rule(R, 'every arm of every word table issues at most one builder operation per path and its value is that operation\'s '
+                'result or a constant Err; the default arm is Err(NaN): a rejected word leaves no digits behind')
+    n = 0
+    for lang in langs:
+        for method in ('apply', 'apply_decimal'):
+            try:
+                t = table(ctx, lang, method)
+            except Unanalysable as e:
+                rep.anchor(R, '%s|%s' % (lang, method), str(e))
+                continue
+            if t.match is None:
+                continue
+            for arm in t.arms:
+                n += 1
+                ent = '%s|%s|%s' % (lang, method, '/'.join(arm.pats[:2]) or 'default')
+                bad = []
+                for l in t.leaves(arm):
+                    if l.kind == 'other':
+                        bad.append('value `%s`' % l.op)
+                    for sd in l.sides:
+                        if re.search(r'\bB\.(put|fput|push|shift|put_digit_at|freeze|reset)\(', sd) or sd.startswith('stmt:') and 'B.' in sd:
+                            bad.append('extra builder operation `%s` before the result' % sd)
+                if arm.is_default:
+                    lv = t.leaves(arm)
+                    if not (len(lv) == 1 and lv[0].sig() == 'Err(NaN)'):
+                        bad.append('default arm is %s, expected Err(NaN)' % lv)
+                rep.check(not bad, R, ent, 'single operation or constant error per path', 'arm %s: %s' % (arm.pats or 'default', '; '.join(bad)), _loc(ctx, arm))
+    rep.floor(R, n, 320, 'arms inspected')
